@@ -17,7 +17,9 @@ import (
 	"crypto"
 	"crypto/ecdsa"
 	"crypto/elliptic"
+	crand "crypto/rand"
 	"crypto/sha256"
+	"crypto/sha512"
 	"encoding/base64"
 	"encoding/hex"
 	"encoding/json"
@@ -81,6 +83,7 @@ const (
 	didJx  = "did:web:example.com:iam:issuer20"
 	didRt  = "did:web:example.com"
 	didB   = "did:web:based.example.com" // its document uses @base + relative key ids
+	didE   = "did:web:example.com:iam:p384" // its assertion key is a P-384 key
 	ctxVC  = "https://www.w3.org/2018/credentials/v1"
 	ctxNut = "https://nuts.nl/credentials/v1"
 	ctxEx  = "http://example.org/credentials/V1"
@@ -101,6 +104,7 @@ type c01World struct {
 	ctx     context.Context
 	ks      *nutsCrypto.Crypto
 	backend spi.Storage
+	kinds   map[string]string           // key name -> curve, for keys that are not P-256
 	keys    map[string]crypto.PublicKey // key name -> public key
 	order   []string
 	hist    map[string][]c01Version
@@ -112,9 +116,10 @@ type c01World struct {
 
 // newKey creates a DETERMINISTIC P-256 key for the given key id (so that documents in replay files verify in a later run),
 // stores it in the real key store and links it to the key id.
-func (w *c01World) newKey(storageKid string) string {
+func (w *c01World) newKey(storageKid string) string { return w.newKeyOn(storageKid, elliptic.P256()) }
+
+func (w *c01World) newKeyOn(storageKid string, curve elliptic.Curve) string {
 	h := sha256.Sum256([]byte("verif-c01-key:" + storageKid))
-	curve := elliptic.P256()
 	d := new(big.Int).SetBytes(h[:])
 	d.Mod(d, new(big.Int).Sub(curve.Params().N, big.NewInt(1)))
 	d.Add(d, big.NewInt(1))
@@ -133,6 +138,9 @@ func (w *c01World) newKey(storageKid string) string {
 	name := "K" + hex.EncodeToString(tp)[:8]
 	w.keys[name] = pub
 	w.order = append(w.order, name)
+	if curve.Params().Name != "P-256" {
+		w.kinds[name] = curve.Params().Name
+	}
 	return name
 }
 
@@ -381,6 +389,8 @@ func c01Msg(s string) string {
 		switch {
 		case has("signing algorithm is not supported"):
 			return "jwt-alg"
+		case has("does not fit the key"):
+			return "jwt-alg-key"
 		case has("not satisfied"):
 			return "jwt-time"
 		case has("key not found in DID document"), has("unable to find the DID document"), has("has been deactivated"), has("invalid key ID"):
@@ -1344,7 +1354,7 @@ func newC01Nodes(t *testing.T) *c01Nodes {
 	// the key store shares the issuer node's SQL database (the status list issuer signs inside its own SQL transaction)
 	iEng := storage.NewTestStorageEngine(t)
 	idb := iEng.GetSQLDatabase()
-	w := &c01World{t: t, ctx: ctx, backend: backend, ks: nutsCrypto.NewTestCryptoInstance(idb, backend), keys: map[string]crypto.PublicKey{}, hist: map[string][]c01Version{}, docs: map[string]*did.Document{}}
+	w := &c01World{t: t, ctx: ctx, backend: backend, ks: nutsCrypto.NewTestCryptoInstance(idb, backend), kinds: map[string]string{}, keys: map[string]crypto.PublicKey{}, hist: map[string][]c01Version{}, docs: map[string]*did.Document{}}
 	w.ldm = jsonld.NewTestJSONLDManager(t)
 	w.loader = w.ldm.DocumentLoader()
 	T := func(s int64) int64 { return (c01T0 + s) * 1000 }
@@ -1371,6 +1381,7 @@ func newC01Nodes(t *testing.T) *c01Nodes {
 		{From: T(-1000), Base: didB, Assert: [][2]string{{"#k1", b1}, {"#k3", b3}}, Auth: [][2]string{{"#k2", b2}}},
 		{From: T(1500), Base: didB, Assert: [][2]string{{"#k1", b1}}, Auth: [][2]string{{"#k2", b2}, {"#k3", b3}}},
 	}
+	w.hist[didE] = []c01Version{{From: T(-1000), Assert: [][2]string{{didE + "#k1", w.newKeyOn(didE+"#k1", elliptic.P384())}}}}
 	h1 := w.newKey(didH + "#k1")
 	w.hist[didH] = []c01Version{{From: T(-1000), Assert: [][2]string{{didH + "#k1", h1}}}}
 	o1 := w.newKey(didO + "#k1")
@@ -1414,7 +1425,7 @@ func newC01Nodes(t *testing.T) *c01Nodes {
 }
 
 func (n *c01Nodes) emitWorld(o *c01Out) {
-	o.emit(map[string]any{"op": "world", "hist": n.w.hist, "asOf": n.w.asOf}, "world")
+	o.emit(map[string]any{"op": "world", "hist": n.w.hist, "asOf": n.w.asOf, "keyKinds": n.w.kinds}, "world")
 }
 
 func (n *c01Nodes) setTrust(o *c01Out, typ, iss string, add bool) {
@@ -1641,6 +1652,12 @@ func (n *c01Nodes) generate(o *c01Out, rnd *rand.Rand, thorough bool) {
 		creds["based:"+f] = text
 		bases = append(bases, c01Base{label: "based:" + f, kind: "vc", text: text, issued: issuedAt})
 	}
+	// issuer E signs with a P-384 key: ES384 is fine, ES256 over that key (and ES384 over a P-256 key) must be refused
+	for _, f := range []string{vc.JSONLDCredentialProofFormat, vc.JWTCredentialProofFormat} {
+		text := n.handIssue(didE, didE+"#k1", f, issuedAt)
+		creds["p384:"+f] = text
+		bases = append(bases, c01Base{label: "p384:" + f, kind: "vc", text: text, issued: issuedAt})
+	}
 	// trust on the verifier node (the issuer's own trust file is a different node's)
 	for _, tr := range [][2]string{{"NutsOrganizationCredential", didI}, {"HumanCredential", didI}, {"NutsAuthorizationCredential", didI}} {
 		n.setTrust(o, tr[0], tr[1], true)
@@ -1682,6 +1699,56 @@ func (n *c01Nodes) generate(o *c01Out, rnd *rand.Rand, thorough bool) {
 	// 2a. presentations that mix a PROOF-LESS SELF-ATTESTED credential (issuer = holder = signer; exempt from the signature
 	// check) with other credentials, in every order; the other credentials genuine, tampered, unsigned or signed by the wrong key
 	n.mixedPresentations(o, rnd, creds, issuedAt, okAt, thorough)
+	// 2a'. JWTs whose algorithm does not fit the signing key's curve (the ECDSA signature itself is made with the real key over the
+	// digest the claimed algorithm prescribes, so a library that only looks at the header would verify it)
+	for _, m := range []struct{ base, kid, alg string }{{"p384:jwt_vc", didE + "#k1", "ES256"}, {"p384:jwt_vc", didE + "#k1", "ES512"},
+		{"org:jwt_vc", didI + "#k1", "ES384"}, {"vp-jwt[human-jwt]", didH + "#k1", "ES384"}, {"vp-jwt[org-ld,plain-jwt]", didH + "#k1", "ES512"}} {
+		var b c01Base
+		for _, x := range bases {
+			if x.label == m.base {
+				b = x
+			}
+		}
+		hdr, pl, _, ok := jwtParts(b.text)
+		if !ok {
+			n.w.t.Fatal("alg/key mismatch: base not a JWT: " + m.base)
+		}
+		h2 := deepCopy(map[string]any(hdr)).(map[string]any)
+		h2["alg"] = m.alg
+		input := base64.RawURLEncoding.EncodeToString([]byte(mustJSON(h2))) + "." + base64.RawURLEncoding.EncodeToString([]byte(mustJSON(pl)))
+		signer, err := n.w.backend.GetPrivateKey(n.w.ctx, m.kid, "1")
+		if err != nil {
+			n.w.t.Fatal(err)
+		}
+		priv := signer.(*ecdsa.PrivateKey)
+		var digest []byte
+		switch m.alg {
+		case "ES256":
+			d := sha256.Sum256([]byte(input))
+			digest = d[:]
+		case "ES384":
+			d := sha512.Sum384([]byte(input))
+			digest = d[:]
+		default:
+			d := sha512.Sum512([]byte(input))
+			digest = d[:]
+		}
+		r, sg, err := ecdsa.Sign(crand.Reader, priv, digest)
+		if err != nil {
+			n.w.t.Fatal(err)
+		}
+		for _, size := range []int{(priv.Curve.Params().BitSize + 7) / 8, map[string]int{"ES256": 32, "ES384": 48, "ES512": 66}[m.alg]} {
+			raw := make([]byte, 2*size)
+			if len(r.Bytes()) > size || len(sg.Bytes()) > size {
+				continue
+			}
+			r.FillBytes(raw[:size])
+			sg.FillBytes(raw[size:])
+			text := input + "." + base64.RawURLEncoding.EncodeToString(raw)
+			n.run(o, c01Call{kind: b.kind, text: text, at: &okAt, allowUntrusted: false, checkSig: true,
+				label: b.label + "~alg-key-mismatch:" + m.alg + ":" + strconv.Itoa(size), base: b.label, mut: "alg-key-mismatch", path: m.alg})
+		}
+	}
 	// 2b. random multi-point mutations (seeded): two or three single mutations stacked
 	nMulti, nTimes := 160, 120
 	if thorough {
